@@ -1,11 +1,7 @@
 //@ item src:zvt_feig_terminal/src/feig.rs | enum CardInfo
 //@ item src:zvt_feig_terminal/src/feig.rs | struct TransactionSummary
-//@ item src:zvt_feig_terminal/src/feig.rs | const CARD_TYPE
-//@ item src:zvt_feig_terminal/src/feig.rs | const SHORT_CARD_READING_CONTROL
-//@ item src:zvt_feig_terminal/src/feig.rs | const ALLOWED_CARDS
-//@ item src:zvt_feig_terminal/src/feig.rs | const DIALOG_CONTROL
-//@ item src:zvt_feig_terminal/src/feig.rs | const PAYMENT_TYPE
-//@ item src:zvt_feig_terminal/src/feig.rs | const BMP_PREFIX
+// every module-level constant of feig.rs (a changed body may name a new one)
+//@ items src:zvt_feig_terminal/src/feig.rs | consts
 //@ item src:zvt_feig_terminal/src/feig.rs | struct Feig
 
 use sequences::{PartialReversalResponse, EndOfDayResponse, AuthorizationResponse, ReadCardResponse};
